@@ -1,8 +1,8 @@
 SPECIFICATION Spec
 CONSTANTS
   N = 60
-  Extra = 0
-  ResetAtBoundary = FALSE
+  Extra = 1
+  ResetAtBoundary = TRUE
   D = 4
   HourU = 14400
   DayU = 345600
